@@ -1,0 +1,17 @@
+//go:build verif
+
+package engine
+
+import "github.com/KevoDB/kevo/pkg/engine/interfaces"
+
+// VerifStorage exposes the storage manager to verification harnesses
+// (build tag verif).
+func (e *EngineFacade) VerifStorage() interfaces.StorageManager {
+	return e.storage
+}
+
+// VerifCompaction exposes the compaction manager to verification harnesses
+// (build tag verif).
+func (e *EngineFacade) VerifCompaction() interfaces.CompactionManager {
+	return e.compaction
+}
